@@ -75,3 +75,139 @@ Proof.
   rewrite app_nil_r in H. exact H.
 Qed.
 End P.
+
+(* ---------- the shutdown protocol never makes a send fail (C06: no internal error) ---------- *)
+Section SD.
+Variable T n : nat.
+Hypothesis HT : 0 < T.
+
+Notation sstep := (sstep T n true).
+Notation nclients := (nclients T n).
+
+Definition qshut (q : list smsg) : nat := length (filter (fun m => match m with MShutdown => true | MData => false end) q).
+Definition ndone (s : sst) (k : nat) : nat := length (filter (fun r => (r mod T =? k) && cdone s r) (seq 0 n)).
+
+Record SInvC (s : sst) : Prop := {
+  sc_count : forall k, alive s k = true -> got s k + qshut (squeue s k) = ndone s k;
+  sc_dead : forall k, alive s k = false -> forall r, r < n -> r mod T = k -> cdone s r = true;
+  sc_ok : send_failed s = false
+}.
+
+Lemma filter_length_le {A} (f g : A -> bool) l : (forall x, f x = true -> g x = true) -> length (filter f l) <= length (filter g l).
+Proof.
+  intros H. induction l as [|x l IH]; simpl; auto. destruct (f x) eqn:Ef.
+  - rewrite (H x Ef). simpl. lia.
+  - destruct (g x); simpl; lia.
+Qed.
+
+Lemma ndone_le s k : ndone s k <= nclients k.
+Proof. apply filter_length_le. intros x H. apply andb_true_iff in H. tauto. Qed.
+
+(* if every client of k counted so far is done, the two counts coincide; conversely equality forces all done *)
+Lemma all_done_of_count s k : ndone s k = nclients k -> forall r, r < n -> r mod T = k -> cdone s r = true.
+Proof.
+  unfold ndone, Compressor.nclients. intros H r Hr Hk.
+  assert (Hin : In r (seq 0 n)) by (apply in_seq; lia).
+  revert H Hin. generalize (seq 0 n). induction l as [|x l IH]; simpl; [intros _ []|].
+  destruct (Nat.eqb_spec (x mod T) k) as [Ex|Ex]; simpl.
+  - destruct (cdone s x) eqn:Ed; simpl.
+    + intros H [->|Hin]; auto.
+    + intros H. exfalso.
+      assert (length (filter (fun r0 => (r0 mod T =? k) && cdone s r0) l) <= length (filter (fun r0 => r0 mod T =? k) l))
+        by (apply filter_length_le; intros y Hy; apply andb_true_iff in Hy; tauto). lia.
+  - intros H [->|Hin]; [congruence|auto].
+Qed.
+
+Lemma ndone_mark s r k (Hr : r < n) (Hd : cdone s r = false) :
+  length (filter (fun r' => (r' mod T =? k) && (if r' =? r then true else cdone s r')) (seq 0 n)) =
+  ndone s k + (if r mod T =? k then 1 else 0).
+Proof.
+  unfold ndone. assert (Hnd : NoDup (seq 0 n)) by apply seq_NoDup.
+  assert (Hin : In r (seq 0 n)) by (apply in_seq; lia).
+  revert Hnd Hin. generalize (seq 0 n). induction l as [|x l IH]; intros Hnd Hin; [destruct Hin|].
+  inversion Hnd as [|? ? Hnx Hnd']; subst. simpl.
+  destruct (Nat.eqb_spec x r) as [->|Hne].
+  - rewrite Hd, andb_true_r, andb_false_r.
+    assert (Hrest : filter (fun r' => (r' mod T =? k) && (if r' =? r then true else cdone s r')) l =
+                    filter (fun r' => (r' mod T =? k) && cdone s r') l).
+    { apply filter_ext_in. intros y Hy. destruct (Nat.eqb_spec y r) as [->|]; [contradiction|reflexivity]. }
+    rewrite Hrest. destruct (r mod T =? k); simpl; lia.
+  - destruct Hin as [E|Hin]; [congruence|]. specialize (IH Hnd' Hin).
+    destruct ((x mod T =? k) && cdone s x); simpl; rewrite IH; lia.
+Qed.
+
+Lemma qshut_app q m : qshut (q ++ [m]) = qshut q + match m with MShutdown => 1 | MData => 0 end.
+Proof. unfold qshut. rewrite filter_app, app_length. destruct m; simpl; lia. Qed.
+
+Lemma sstep_inv s c : SInvC s -> SInvC (sstep s c).
+Proof.
+  intros [Hc Hd Hok]. assert (I0 : SInvC s) by (constructor; assumption).
+  destruct c as [r|r|k]; simpl.
+  - (* data *)
+    destruct (Nat.ltb_spec r n) as [Hr|Hr]; simpl; [|exact I0].
+    destruct (cdone s r) eqn:Ed; simpl; [exact I0|].
+    unfold enqueue. destruct (alive s (r mod T)) eqn:Ea.
+    + refine {| sc_count := _; sc_dead := _; sc_ok := _ |}; simpl.
+      * intros k Hk. unfold ndone. simpl. destruct (Nat.eqb_spec k (r mod T)) as [->|Hne].
+        -- rewrite qshut_app. simpl. rewrite Nat.add_0_r. apply Hc. exact Hk.
+        -- apply Hc. exact Hk.
+      * exact Hd.
+      * exact Hok.
+    + exfalso. rewrite (Hd (r mod T) Ea r Hr eq_refl) in Ed. discriminate.
+  - (* shutdown *)
+    destruct (Nat.ltb_spec r n) as [Hr|Hr]; simpl; [|exact I0].
+    destruct (cdone s r) eqn:Ed; simpl; [exact I0|].
+    unfold enqueue. destruct (alive s (r mod T)) eqn:Ea.
+    + refine {| sc_count := _; sc_dead := _; sc_ok := _ |}; simpl.
+      * intros k Hk. unfold ndone. simpl. rewrite (ndone_mark s r k Hr Ed).
+        destruct (Nat.eqb_spec k (r mod T)) as [->|Hne].
+        -- rewrite Nat.eqb_refl, qshut_app. simpl. rewrite Nat.add_assoc. f_equal. apply Hc. exact Hk.
+        -- destruct (Nat.eqb_spec (r mod T) k); [congruence|]. rewrite Nat.add_0_r. apply Hc. exact Hk.
+      * intros k Hk r' Hr' Hk'. destruct (Nat.eqb_spec r' r); auto. eapply Hd; eauto.
+      * exact Hok.
+    + exfalso. rewrite (Hd (r mod T) Ea r Hr eq_refl) in Ed. discriminate.
+  - (* receive *)
+    destruct (alive s k) eqn:Ea; [|exact I0].
+    destruct (squeue s k) as [|[|] rest] eqn:Eq; [exact I0| |].
+    + refine {| sc_count := _; sc_dead := _; sc_ok := _ |}; simpl.
+      * intros k' Hk'. unfold ndone. simpl. destruct (Nat.eqb_spec k' k) as [->|Hne].
+        -- pose proof (Hc k Ea) as H. rewrite Eq in H. unfold qshut in *. simpl in H. exact H.
+        -- apply Hc. exact Hk'.
+      * exact Hd.
+      * exact Hok.
+    + pose proof (Hc k Ea) as H. rewrite Eq in H. unfold qshut in H. simpl in H. fold (qshut rest) in H.
+      refine {| sc_count := _; sc_dead := _; sc_ok := _ |}; simpl.
+      * intros k' Hk'. unfold ndone. simpl. destruct (Nat.eqb_spec k' k) as [E|Hne].
+        -- rewrite E. fold (ndone s k). lia.
+        -- apply Hc. exact Hk'.
+      * intros k' Hk' r Hr Hrk. destruct (Nat.eqb_spec k' k) as [E|Hne]; [|eapply Hd; eauto].
+        apply negb_false_iff, Nat.leb_le in Hk'. rewrite E in Hrk.
+        apply (all_done_of_count s k); auto. pose proof (ndone_le s k). lia.
+      * exact Hok.
+Qed.
+
+Lemma sinit_inv : SInvC (sinit).
+Proof.
+  refine {| sc_count := _; sc_dead := _; sc_ok := _ |}; simpl.
+  - intros k _. unfold ndone, qshut. simpl.
+    assert (E : filter (fun r => (r mod T =? k) && false) (seq 0 n) = []).
+    { induction (seq 0 n) as [|x l IH]; simpl; auto. rewrite andb_false_r. exact IH. }
+    rewrite E. reflexivity.
+  - intros k H. discriminate H.
+  - reflexivity.
+Qed.
+
+(* for every interleaving of the clients' sends and the threads' receives, no send ever finds its channel closed *)
+Theorem shutdown_never_fails cs : send_failed (srun T n true cs) = false.
+Proof.
+  assert (H : SInvC (srun T n true cs)).
+  { unfold srun. rewrite <- (rev_involutive cs). induction (rev cs) as [|c l IH]; simpl; [apply sinit_inv|].
+    rewrite fold_left_app. simpl. apply sstep_inv. exact IH. }
+  apply H.
+Qed.
+End SD.
+
+(* the pinned commit (a thread leaves at the first Shutdown): two clients on one thread, the second send fails *)
+Lemma shutdown_as_found_fails :
+  send_failed (srun 2 4 false [SShutdown 0; SRecv 0; SShutdown 2]) = true.
+Proof. reflexivity. Qed.
